@@ -1,6 +1,7 @@
 package codec
 
 import (
+	"reflect"
 	"testing"
 
 	"github.com/vapourismo/knx-go/knx/cemi"
@@ -86,6 +87,9 @@ type ldataRec struct {
 	GN    int    `json:"gn"`    // consumed length
 }
 
+// dirtyLData is decoded into again and again (never reset).
+var dirtyLData cemi.LData
+
 func logLData(o *Out, f LF) {
 	r := ldataRec{K: "ldata", F: f, GB: []int{}, GD: LF{Info: []int{}, Data: []int{}}}
 	p, _ := Guarded(func() {
@@ -94,12 +98,37 @@ func logLData(o *Out, f LF) {
 		buf := make([]byte, r.Size)
 		cemi.Pack(buf, m)
 		r.GB = Ints(buf)
+		// decoded from a scratch copy that is overwritten right after the call (a decoder must not keep references into
+		// its input: receive buffers are reused) ...
+		in := append([]byte(nil), buf...)
 		var out cemi.Message
-		n, err := cemi.Unpack(buf, &out)
+		n, err := cemi.Unpack(in, &out)
+		for i := range in {
+			in[i] = 0xEE
+		}
 		r.GN = int(n)
 		if err == nil {
 			if g, ok := fieldsOf(out); ok {
 				r.GD, r.GOK = g, 1
+			}
+		}
+		// ... and once more into a receiver that already holds the previously decoded frame (a reused value must end
+		// up exactly as a fresh one); a difference replaces the decoded fields, so the judge sees it
+		if err == nil && r.GOK == 1 && len(buf) > 1 {
+			in2 := append([]byte(nil), buf[1:]...)
+			if _, e2 := dirtyLData.Unpack(in2); e2 == nil {
+				var m2 cemi.Message
+				switch buf[0] {
+				case 0x11:
+					m2 = &cemi.LDataReq{LData: dirtyLData}
+				case 0x29:
+					m2 = &cemi.LDataInd{LData: dirtyLData}
+				default:
+					m2 = &cemi.LDataCon{LData: dirtyLData}
+				}
+				if g2, ok := fieldsOf(m2); ok && !reflect.DeepEqual(g2, r.GD) {
+					r.GD = g2
+				}
 			}
 		}
 	})
@@ -166,13 +195,19 @@ func TestC11(t *testing.T) {
 		f.Code = 0x29
 		logLData(o, f)
 	}
-	for n := 0; n <= 255; n++ {
-		f := base
-		f.Info = make([]int, n)
-		for i := range f.Info {
-			f.Info[i] = rng.Intn(256)
+	for pass := 0; pass < 2; pass++ { // ascending, then descending (a reused receiver sees longer blocks before shorter ones)
+		for k := 0; k <= 255; k++ {
+			n := k
+			if pass == 1 {
+				n = 255 - k
+			}
+			f := base
+			f.Info = make([]int, n)
+			for i := range f.Info {
+				f.Info[i] = rng.Intn(256)
+			}
+			logLData(o, f)
 		}
-		logLData(o, f)
 	}
 	// corner and seeded addresses
 	addrs := []int{0, 1, 0xff, 0x100, 0x0fff, 0x1000, 0x7fff, 0x8000, 0xfffe, 0xffff, 0x1234, 0xabcd}
